@@ -28,7 +28,8 @@ def cases(draw, mode, nums=("frac",), tmax=2):
     if big:
         # many levels at once (a closed form for t levels need not agree with t single steps): small curves
         c = draw(gen.curves(0, 3, 1, nums=nums, rational=draw(st.integers(0, 4)) < 2, regimes=False))
-        t = draw(st.sampled_from([4, 5, 6, 7, 8, 9]))
+        # (floats: up to 5 levels - the Gram matrices of degree >= 10 are too ill-conditioned for a 1e-9 comparison)
+        t = draw(st.sampled_from([4, 5, 6, 7, 8, 9] if "frac" in nums else [4, 5]))
     else:
         c = draw(gen.curves(0, 3, 3, nums=nums, rational=draw(st.integers(0, 4)) < 2,
                              regimes="all" if mode == "elevate" else None))
